@@ -332,6 +332,15 @@ func (r *StreamRun) execS(st Step) {
 		} else {
 			r.await("CliWrite", func() bool { return r.CountEv("w.write") > n0 })
 		}
+	case "CliWriteFail":
+		cs := r.cli[s]
+		if cs == nil || cs.st == nil {
+			return
+		}
+		// a message the body codec cannot encode: the write fails locally
+		r.add(&Ev{Ev: "cli.write.bad", S: s, Seq: -1, Sent: -1})
+		cs.st.WriteMessage(&struct{ X int }{1})
+		time.Sleep(200 * time.Microsecond)
 	case "CliRead":
 		cs := r.cli[s]
 		if cs == nil || cs.st == nil || cs.reading {
